@@ -173,6 +173,30 @@ func runC11(c *Ctx) {
 				c.Require("C11.R3 node-index-symmetry", k+": read prefix", p.InstrPos(call), "reads use a prefix saveNode writes", written[pf], "prefix "+pf)
 			}
 		}
+		// R8: hashes are not unique (equal leaves, equal subtrees): an entry of the hash→location
+		// family may be deleted only where the stored location was checked to be the one being
+		// replaced — a delete keyed by the hash alone removes the entry another location with
+		// the same hash relies on (a proof for that leaf then names index 0)
+		{
+			nDel := 0
+			for _, fn := range methods {
+				gf := factsOf(fn)
+				for _, call := range CallsInvoke(fn, "Del") {
+					pf := prefixOf(T(ArgK(call, 0)))
+					if !written[pf] {
+						continue
+					}
+					nDel++
+					in := call.(ssa.Instruction)
+					ok := gf.EveryPathHas(in.Block(), func(f Fact) bool {
+						s := f.String()
+						return strings.Contains(s, "getLocation(") || (strings.Contains(s, "bytes.Equal(") && strings.Contains(s, ".key("))
+					})
+					c.Require("C11.R8 index-delete-checks-owner", FuncKey(fn)+": Del "+T(ArgK(call, 0)).String(), p.InstrPos(in), "an index entry keyed by a hash is deleted only after the stored location was compared with the location being replaced (hashes repeat)", ok, "")
+				}
+			}
+			c.Count("index deletes in the written families", nDel)
+		}
 		for _, call := range CallsInvoke(replace, "Del") {
 			pf := prefixOf(T(ArgK(call, 0)))
 			// informational only: a stale hash→location entry of a replaced inner node is never
@@ -286,6 +310,8 @@ func runC11(c *Ctx) {
 		// R5: the append path is handed out by AppendPath()/GenerateRightWitness as it is;
 		// Append must build a new one (an earlier result must stay the path of the earlier size)
 		checkExposedSliceImmutable(c, "C11.R5 handed-out-path-immutable", T_, "appendPath", methods)
+		// R7: predicted and real append agree on which siblings the new head absorbs
+		c.MinInstances("C11.R7 fold-complements-kept-suffix", checkFoldComplementsKeptSuffix(c, "C11.R7 fold-complements-kept-suffix", "pkg/trie/rmt."), 2)
 		c.Count("non-persisted mutable tree fields", extra)
 		c.Require("C11.R4 derived-state-invalidated", "tree handle fields", "-", "every mutable non-persisted field is covered (none today: the handle holds only root, appendPath, size, db)", true, fmt.Sprintf("%d such fields", extra))
 	}
@@ -308,4 +334,125 @@ func CallsInvoke(fn *ssa.Function, m string) []ssa.CallInstruction {
 		}
 	}
 	return out
+}
+
+// checkFoldComplementsKeptSuffix — C11.R7. Wherever a new path is built as
+// append([]T{h}, P[k:]...) — one freshly folded head followed by the untouched suffix of an
+// older path P — the fold that produced h must consume exactly the complementary prefix
+// P[:k]: every sibling of the old path is used once, either inside the new head or kept
+// behind it. Folding over all of P hashes the kept siblings into the head a second time;
+// the predicted path then differs from the one the real append stores unless k == len(P).
+func checkFoldComplementsKeptSuffix(c *Ctx, rule string, pkgPrefix string) int {
+	p := c.P
+	n := 0
+	for _, fn := range p.Subjects() {
+		if !strings.HasPrefix(FuncKey(fn), pkgPrefix) || len(fn.Blocks) == 0 || !IsProd(fn) {
+			continue
+		}
+		for _, b := range blocksDeep(fn) {
+			for _, in := range b.Instrs {
+				call, ok := in.(*ssa.Call)
+				if !ok {
+					continue
+				}
+				bi, ok := call.Call.Value.(*ssa.Builtin)
+				if !ok || bi.Name() != "append" || len(call.Call.Args) != 2 {
+					continue
+				}
+				// head: a one-element literal
+				hs, ok := call.Call.Args[0].(*ssa.Slice)
+				if !ok {
+					continue
+				}
+				al, ok := hs.X.(*ssa.Alloc)
+				if !ok {
+					continue
+				}
+				elems, ok := arrayElems(al)
+				if !ok || len(elems) != 1 {
+					continue
+				}
+				// tail: P[k:]
+				tail, ok := valueRoot(call.Call.Args[1]).(*ssa.Slice)
+				if !ok || tail.Low == nil || tail.High != nil {
+					continue
+				}
+				if _, isSl := tail.X.Type().Underlying().(*types.Slice); !isSl {
+					continue
+				}
+				// the head is the result of a loop: a φ whose back-edge value reads elements of R
+				head := elems[0]
+				for {
+					if ci, ok := head.(*ssa.Call); ok && len(ci.Call.Args) == 1 { // bytes.Copy(h) and the like
+						if _, isSl := ci.Call.Args[0].Type().Underlying().(*types.Slice); isSl && types.Identical(ci.Type(), ci.Call.Args[0].Type()) {
+							head = ci.Call.Args[0]
+							continue
+						}
+					}
+					break
+				}
+				phi, ok := head.(*ssa.Phi)
+				if !ok {
+					continue
+				}
+				var ranged []ssa.Value
+				seen := map[ssa.Value]bool{}
+				var walk func(v ssa.Value, depth int)
+				walk = func(v ssa.Value, depth int) {
+					if v == nil || seen[v] || depth > 12 {
+						return
+					}
+					seen[v] = true
+					switch x := v.(type) {
+					case *ssa.UnOp:
+						if ia, ok := x.X.(*ssa.IndexAddr); ok {
+							if _, isSl := ia.X.Type().Underlying().(*types.Slice); isSl {
+								ranged = append(ranged, ia.X)
+								return
+							}
+						}
+						walk(x.X, depth+1)
+					case *ssa.Call:
+						for _, a := range x.Call.Args {
+							walk(a, depth+1)
+						}
+					case *ssa.Phi:
+						if x != phi {
+							for _, e := range x.Edges {
+								walk(e, depth+1)
+							}
+						}
+					case *ssa.Slice:
+						walk(x.X, depth+1)
+					case *ssa.Extract:
+						walk(x.Tuple, depth+1)
+					case *ssa.Next:
+						// range over a slice is lowered to an index loop; a Next here is a map/string
+					}
+				}
+				for _, e := range phi.Edges {
+					if e != phi {
+						walk(e, 0)
+					}
+				}
+				if len(ranged) == 0 {
+					continue
+				}
+				n++
+				P, k := T(tail.X).String(), T(tail.Low).String()
+				ok2 := true
+				got := []string{}
+				for _, r := range ranged {
+					rs, isSlice := valueRoot(r).(*ssa.Slice)
+					good := isSlice && rs.Low == nil && rs.High != nil && T(rs.X).String() == P && T(rs.High).String() == k
+					got = append(got, T(r).String())
+					if !good {
+						ok2 = false
+					}
+				}
+				c.Require(rule, FuncKey(fn)+": new path = [fold] ++ "+T(tail).String(), p.InstrPos(call), "the fold that heads the new path consumes exactly the prefix the kept suffix leaves out ("+P+"[:"+k+"])", ok2, "the fold reads "+strings.Join(got, ", "))
+			}
+		}
+	}
+	return n
 }
